@@ -111,6 +111,29 @@ func Load(dir string, tags string, env []string) (*Program, error) {
 		p.OwnFuncs = append(p.OwnFuncs, fn)
 		p.Funcs[FuncKey(fn)] = fn
 	}
+	// methods of unexported types that nothing calls are not "reachable" for
+	// AllFunctions; rules about generated codecs need them all the same
+	for _, sp := range p.SSAPkg {
+		for _, mem := range sp.Members {
+			tm, ok := mem.(*ssa.Type)
+			if !ok {
+				continue
+			}
+			for _, t := range []types.Type{tm.Type(), types.NewPointer(tm.Type())} {
+				ms := prog.MethodSets.MethodSet(t)
+				for i := 0; i < ms.Len(); i++ {
+					fn := prog.MethodValue(ms.At(i))
+					if fn == nil || fn.Synthetic != "" || len(fn.Blocks) == 0 {
+						continue
+					}
+					if _, dup := p.Funcs[FuncKey(fn)]; !dup {
+						p.Funcs[FuncKey(fn)] = fn
+						p.OwnFuncs = append(p.OwnFuncs, fn)
+					}
+				}
+			}
+		}
+	}
 	sort.Slice(p.OwnFuncs, func(i, j int) bool { return FuncKey(p.OwnFuncs[i]) < FuncKey(p.OwnFuncs[j]) })
 	p.LoadSecs = time.Since(t0).Seconds()
 	return p, nil
